@@ -225,46 +225,53 @@ Definition expand_repeatable (all : list (list string)) (defs : list string) : l
 
 Inductive tail_result := TPanic | TInvalidUsage | TNoMatch | THelp | TVars (v : jv).
 
+(* the first usage (in the given order) with as many words as argv whose words all bind *)
+Fixpoint first_match (t : list odesc) (argv : list string) (us : list (list string)) : option (option (list jv)) :=
+  match us with
+  | [] => Some None
+  | ds :: r =>
+      if Nat.eqb (List.length argv) (List.length ds) then
+        match bind_list t argv ds ds with
+        | None => None
+        | Some (Some l) => Some (Some l)
+        | Some None => first_match t argv r
+        end
+      else first_match t argv r
+  end.
+
+Definition kinds_valid (defs0 : list (list string)) : bool :=
+  forallb (fun ds => forallb (fun w => match kind_of w with Some _ => true | None => false end) ds) defs0.
+
+Definition seeds_of (defs : list (list string)) : list jv :=
+  flat_map (fun ds => flat_map (fun w =>
+               match kind_of w with
+               | Some 0 => [JObj [(replace_char "-" "_" w,
+                                   if existsb (fun u => Nat.ltb 1 (count_eq w u)) defs then JNum 0 else JBool false)]]
+               | _ => []
+               end) ds) defs.
+
+Definition help_or_vars (res : jv) : tail_result :=
+  match res with
+  | JObj m =>
+      match jget m "help" with
+      | Some (JBool true) => THelp
+      | _ => match jget m "options" with
+             | Some (JObj om) => match jget om "help" with Some (JBool true) => THelp | _ => TVars res end
+             | _ => TVars res
+             end
+      end
+  | _ => TVars res
+  end.
+
 Definition tail (t : list odesc) (argv : list string) (usages : list string) : tail_result :=
   let defs0 := map words_of_usage usages in
-  if negb (forallb (fun ds => forallb (fun w => match kind_of w with Some _ => true | None => false end) ds) defs0)
+  if negb (kinds_valid defs0)
   then TInvalidUsage
   else
     let defs := map (expand_repeatable defs0) defs0 in
-    let seeds :=
-      flat_map (fun ds => flat_map (fun w =>
-                   match kind_of w with
-                   | Some 0 => [JObj [(replace_char "-" "_" w,
-                                       if existsb (fun u => Nat.ltb 1 (count_eq w u)) defs then JNum 0 else JBool false)]]
-                   | _ => []
-                   end) ds) defs in
-    let vars := fold_left (merge 3) seeds (initial_vars t) in
-    let fix first (us : list (list string)) : option (option (list jv)) :=
-      match us with
-      | [] => Some None
-      | ds :: r =>
-          if Nat.eqb (List.length argv) (List.length ds) then
-            match bind_list t argv ds ds with
-            | None => None
-            | Some (Some l) => Some (Some l)
-            | Some None => first r
-            end
-          else first r
-      end in
-    match first defs with
+    let vars := fold_left (merge 3) (seeds_of defs) (initial_vars t) in
+    match first_match t argv defs with
     | None => TPanic
     | Some None => TNoMatch
-    | Some (Some l) =>
-        let res := fold_left (merge 3) l vars in
-        match res with
-        | JObj m =>
-            match jget m "help" with
-            | Some (JBool true) => THelp
-            | _ => match jget m "options" with
-                   | Some (JObj om) => match jget om "help" with Some (JBool true) => THelp | _ => TVars res end
-                   | _ => TVars res
-                   end
-            end
-        | _ => TVars res
-        end
+    | Some (Some l) => help_or_vars (fold_left (merge 3) l vars)
     end.
